@@ -36,7 +36,7 @@ fn main() {
     let mut replay = None;
     if args.len() >= 5 && args[3] == "--replay" {
         let raw = std::fs::read(&args[4]).expect("read replay file");
-        let parsed: Option<Value> = std::str::from_utf8(&raw).ok().and_then(|s| serde_json::from_str::<Value>(s).ok()).filter(|v| v.get("event_index").is_some() || v.get("fuzz_input_hex").is_some());
+        let parsed: Option<Value> = std::str::from_utf8(&raw).ok().and_then(|s| serde_json::from_str::<Value>(s).ok()).filter(|v| v.get("event_index").is_some() || v.get("fuzz_input_hex").is_some() || v.get("unguarded").is_some());
         // an input of the coverage-guided driver (a libFuzzer artifact, or a corpus entry quoted in a replay document)
         let fuzz_bytes: Option<Vec<u8>> = match &parsed {
             None => Some(raw.clone()),
@@ -55,6 +55,13 @@ fn main() {
             std::process::exit(if out.violations.is_empty() { 0 } else { 1 });
         }
         let v: Value = parsed.unwrap();
+        if v.get("unguarded").is_some() {
+            // a library panic in an unguarded call ended a shard: the same seed and tier re-execute it
+            println!("REPLAY of {}: re-running the {} tier at seed {} (the recorded run ended on: {})", prop, v["tier"], v["seed"], v["detail"]);
+            let exe = std::env::current_exe().expect("current_exe");
+            let st = std::process::Command::new(exe).args([prop.as_str(), v["tier"].as_str().unwrap_or("quick"), "--seed", &v["seed"].as_i64().unwrap_or(1).to_string(), "--evidence-name", "_aux-replay.json"]).status();
+            std::process::exit(st.ok().and_then(|s| s.code()).unwrap_or(2));
+        }
         seed = v["seed"].as_u64().unwrap();
         tier = if v["tier"] == "thorough" { Tier::Thorough } else { Tier::Quick };
         replay = Some((v["shard"].as_u64().unwrap() as u32, v["event_index"].as_u64().unwrap()));
@@ -215,6 +222,22 @@ fn main() {
                 panics += p;
             }
             Err(_) => {
+                // a panic raised by the library itself in a call a monitor made without a guard is the library's outcome
+                let lib: Vec<(String, String)> = UNGUARDED_LIB_PANICS.lock().map(|v| v.clone()).unwrap_or_default();
+                if let Some((msg, loc)) = lib.first() {
+                    let info = PanicInfo { msg: msg.clone(), loc: loc.clone(), step_budget: false };
+                    let sig = format!("unguarded-call/panic/{}", info.class());
+                    let fname = format!("{}-{}-s{}-{}-{:08x}.json", prop, tier.name(), seed, flavour, hstr(&sig) as u32);
+                    let path = verif_dir.join("replays").join(&fname);
+                    let _ = std::fs::create_dir_all(verif_dir.join("replays"));
+                    let doc = json!({"property": prop, "signature": sig, "seed": seed as i64, "tier": tier.name(), "scale": scale, "flavour": flavour, "unguarded": true,
+                        "detail": format!("the library panicked in a call of the monitor: {} at {}", msg, loc), "replay_cmd": format!("./check {} {}  (the same seed re-executes the shard and panics again)", prop, tier.name())});
+                    let _ = std::fs::write(&path, serde_json::to_string_pretty(&doc).unwrap());
+                    println!("  [{}] the library panicked in a call of the monitor: {} at {}", sig, msg, loc);
+                    println!("VIOLATION property={} replay={}", prop, path.display());
+                    println!("FAIL property={} violations=1 distinct_signatures=1 (a shard ended on a library panic; the other counters of this run are incomplete)", prop);
+                    std::process::exit(1);
+                }
                 println!("INCONCLUSIVE property={} a harness shard panicked outside a guarded call", prop);
                 std::process::exit(2);
             }
